@@ -1538,6 +1538,7 @@ class AddConstraint(Contract):
     name = "pysnark.runtime:add_constraint"
     cprops = ()                   # whether the emitted triple holds is the CALLER's obligation (see V.honest_*)
     skip_facets = "C"
+    facets = "VRSTNK"
     sprops = ("C02", "C03")
     vprops = ("C01", "C07", "C05")
     tprops = ("C06",)
